@@ -404,16 +404,34 @@ def check_expr(ctx, r, S, stream, lines, pend, n_pts=3, oracle_only=False):
                 ctx.violation('biconj-value-raises ' + key0, 'f**(x) raised ' + st, desc)
         # (d) Moreau decomposition
         sigma = rng.choice([1.0, 0.5, 2.0, 0.25] if stream == 'exact' else [1.0, 0.5, 2.0, 0.3, 1.7])
-        moreau(ctx, f, g, S, x, xs, sigma, desc, key0, classes, r)
+        moreau(ctx, f, g, S, x, xs, sigma, desc, key0, classes, r, w, lines, pend, stream)
 
 
-def moreau(ctx, f, g, S, x, xs, sigma, desc, key0, classes, r):
-    st, p1 = safe_call(lambda: f.proximal(sigma)(x))
-    if st != 'ok':
+def lam_fudged(S):
+    """`lam = float(lam * (1 - eps))` of proximal_convex_conj_l1 for lam = 1 on this space."""
+    try:
+        eps = float(np.finfo(getattr(S.space, 'dtype', float)).resolution * 10)
+    except Exception:  # noqa
+        eps = float(np.finfo(float).resolution * 10)
+    return float(1 * (1 - eps))
+
+
+def moreau(ctx, f, g, S, x, xs, sigma, desc, key0, classes, r, w=None, lines=None, pend=None,
+           stream='general'):
+    st1, p1 = safe_call(lambda: f.proximal(sigma)(x))
+    st2, p2 = safe_call(lambda: g.proximal(1.0 / sigma)(x / sigma))
+    if w is not None and lines is not None:
+        # MOREAU-MODEL stream: both proximals of the real objects vs the Lean execution of
+        # Fn.toProx / Prox.Fn.prox on f and on the coded conjugate Fn.conj f
+        fl1 = S.flat(p1) if st1 == 'ok' else None
+        fl2 = S.flat(p2) if st2 == 'ok' else None
+        lines.append('moreau f={} w={} x={} sigma={} lamf={}'.format(
+            w, fc.wl(S), fl(xs), fs(sigma), fs(lam_fudged(S))))
+        pend.append(('moreau', dict(desc, sigma=sigma, head=r[0]), (st1, fl1, st2, fl2), stream))
+    if st1 != 'ok':
         ctx.hit('moreau-skip:no-prox')
         return
-    st, p2 = safe_call(lambda: g.proximal(1.0 / sigma)(x / sigma))
-    if st != 'ok':
+    if st2 != 'ok':
         ctx.hit('moreau-skip:no-conj-prox')
         return
     st, resid = safe_call(lambda: float((p1 + sigma * p2 - x).norm()))
@@ -432,10 +450,73 @@ def moreau(ctx, f, g, S, x, xs, sigma, desc, key0, classes, r):
                       .format(resid, sigma), dict(desc, sigma=sigma))
 
 
+def parse_kv(ans):
+    out = {}
+    for tok in ans.split()[1:]:
+        k, _, v = tok.partition('=')
+        out[k] = v
+    return out
+
+
+def vec_close(impl, toks, exact):
+    """(agrees, exactly) for a float list of the real code vs a rational list of the model."""
+    try:
+        m = [core.pfrac(t) for t in toks.split(',')] if toks else []
+    except Exception:  # noqa
+        return False, False
+    if len(m) != len(impl) or not all(math.isfinite(v) for v in impl):
+        return False, False
+    if all(Fraction(a) == b for a, b in zip(impl, m)):
+        return True, True
+    scale = max([1.0] + [abs(v) for v in impl])
+    return all(abs(a - float(b)) <= 1e-11 * scale for a, b in zip(impl, m)), False
+
+
+def compare_moreau(ctx, desc, impl, ans, stream):
+    """Model vs code for the op `moreau`; raises are compared in both directions."""
+    st1, p1, st2, p2 = impl
+    d2 = dict(desc, op='moreau')
+    head = desc.get('head', '?')
+    if ans == 'noprox1':
+        ctx.hit('moreau-model/noprox1')
+        if st1 == 'ok':
+            ctx.disagree(d2, 'f.proximal(sigma)(x) = {}'.format(p1), ans)
+        return
+    if ans == 'noprox2':
+        ctx.hit('moreau-model/noprox2')
+        if st1 != 'ok' or st2 == 'ok':
+            ctx.disagree(d2, 'prox: {} / conj prox: {}'.format(st1, st2), ans)
+        return
+    if not ans.startswith('ok p1='):
+        ctx.disagree(d2, 'prox: {} / conj prox: {}'.format(st1, st2), ans)
+        return
+    if st1 != 'ok' or st2 != 'ok':
+        ctx.disagree(d2, 'raised: prox: {} / conj prox: {}'.format(st1, st2), ans)
+        return
+    kv = parse_kv(ans)
+    ok1, ex1 = vec_close(p1, kv.get('p1', ''), stream == 'exact')
+    ok2, ex2 = vec_close(p2, kv.get('p2', ''), stream == 'exact')
+    ctx.hit('moreau-model/ok/' + head)
+    ctx.hit('moreau-model/' + ('bitwise' if ex1 and ex2 else 'rounded'))
+    ctx.case(('moreau-model', desc.get('space'), head) if any(p1) or any(p2) else None)
+    if not ok1:
+        ctx.disagree(dict(d2, which='prox'), p1, kv.get('p1'))
+    if not ok2:
+        ctx.disagree(dict(d2, which='conj-prox'), p2, kv.get('p2'))
+    # the model's own Moreau left-hand side p1 + sigma p2 against x (instance of the theorems
+    # C08.moreau_*; the fudged radius lamf = 1 - 1e-14 moves it by <= sigma * 1e-14)
+    okx, _ = vec_close(desc['x'], kv.get('lhs', ''), False)
+    if not okx:
+        ctx.disagree(dict(d2, which='model-lhs'), desc['x'], kv.get('lhs'))
+
+
 def compare(ctx, pend, outs):
     for (op, desc, impl, stream), ans in zip(pend, outs):
         d2 = dict(desc, op=op)
         ctx.hit('model/' + op)
+        if op == 'moreau':
+            compare_moreau(ctx, desc, impl, ans, stream)
+            continue
         if op == 'conjraise':
             if ans != 'noconj' or 'ValueError' not in str(impl):
                 ctx.disagree(d2, 'raised: ' + str(impl), ans)
